@@ -445,7 +445,7 @@ pub fn run(args: &Args) {
         "C33",
         "gencheck c33",
         args,
-        "dense and sparse candidate sets of 1..=200 logits (finite and -inf entries with at least one finite, ties, all-equal, single candidate, spreads up to +-3e38) under every forced instruction set. ArgMax: returned id is a candidate whose score is >= every score. Multinomial: two samplers built with the same seed draw the same ids; every drawn id is a candidate and its logit is not -inf. Plus a seed-independent directed search (sampler seeds 0.., 100000 draws each, up to 2e7 / 2e8 draws) for the two ways a zero-probability first candidate can be returned: a random target of exactly 0 (control set [-inf, 0]), and the documented 'fall back to index 0' when the target exceeds the rounded cumulative sum (fixed set whose first logit is -inf and whose f32 softmax sums to less than 1, per instruction set). Non-trivial = at least 2 candidates; distinct by (logits bits, ids)",
+        "dense and sparse candidate sets of 1..=200 logits (finite and -inf entries with at least one finite; for ArgMax also sets that are entirely -inf; two vocabulary-sized sets of 65536 / 131072 logits with a zero-probability tail, ties, all-equal, single candidate, spreads up to +-3e38) under every forced instruction set. ArgMax: returned id is a candidate whose score is >= every score. Multinomial: two samplers built with the same seed draw the same ids; every drawn id is a candidate and its logit is not -inf. Plus a seed-independent directed search (sampler seeds 0.., 100000 draws each, up to 2e7 / 2e8 draws) for the two ways a zero-probability first candidate can be returned: a random target of exactly 0 (control set [-inf, 0]), and the documented 'fall back to index 0' when the target exceeds the rounded cumulative sum (fixed set whose first logit is -inf and whose f32 softmax sums to less than 1, per instruction set). Non-trivial = at least 2 candidates; distinct by (logits bits, ids)",
     );
     let isas = usable_isas(&mut rep);
     if isas.is_empty() {
@@ -498,6 +498,49 @@ pub fn run(args: &Args) {
         let set = gen_set(&mut rng, n, pat, sparse);
         let seed = rng.next_u64();
         run_set(&mut rep, &isas, &set, seed, draws, false, "random");
+    }
+
+    // ArgMax on sets whose scores are all -inf (every candidate is maximal): the
+    // returned id must still be one of the candidates. Multinomial is not asked:
+    // the probabilities of such a set are undefined.
+    for n in [1usize, 2, 3, 7, 16, 33] {
+        for sparse in [false, true] {
+            let mut set = gen_set(&mut rng, n, "uniformish", sparse);
+            for v in set.vals.iter_mut() {
+                *v = f32::NEG_INFINITY;
+            }
+            if sparse {
+                // make sure id 0 is not a candidate
+                for id in set.ids.iter_mut() {
+                    *id += 5;
+                }
+            }
+            for (isa, _) in &isas {
+                rep.eval();
+                rep.count("argmax_all_neg_inf_sets");
+                if let Err(f) = with_isa(*isa, || check_argmax(&set)) {
+                    report(&mut rep, &isas, &set, f, *isa, "all_neg_inf");
+                    break;
+                }
+            }
+        }
+    }
+    // Large candidate sets (vocabulary sized) whose tail has probability exactly 0:
+    // the f32 cumulative sum falls short of 1 by about n * 3e-8, so the "target above
+    // the sum" fallback is reached within a few thousand draws.
+    if args.shard == args.shards - 1 {
+        for (n, tail) in [(65_536usize, 1usize), (131_072, 3)] {
+            let mut vals: Vec<f32> = (0..n).map(|_| rng.f32_in(-2.0, 2.0)).collect();
+            vals[n / 3] = 12.0;
+            for v in vals[n - tail..].iter_mut() {
+                *v = f32::NEG_INFINITY;
+            }
+            let ids = (0..n as u32).collect();
+            let set = Set { vals, ids, dense: true };
+            let big_draws = if args.thorough { 6000 } else { 1500 };
+            rep.count("vocabulary_sized_sets");
+            run_set(&mut rep, &isas[..1.min(isas.len())], &set, rng.next_u64(), big_draws, true, "vocabulary_sized");
+        }
     }
 
     if args.shard == 0 {
